@@ -38,7 +38,7 @@ MkDoc(s1, s2, nm, l1, l2) ==
                  ents |-> IF l2 = <<>> THEN <<>> ELSE << [t |-> Nm(3, s1), l |-> l2] >>] >>]
 \* every label up to LabLen with the other dimensions fixed, and every combination of the other dimensions
 DocsA == { MkDoc("dec", "int", <<C("O", "n")>>, l1, <<C("Q", 0)>>) : l1 \in LabelsUpTo(LabLen) }
-DocsB == { MkDoc(s1, s2, nm, l1, l2) : s1 \in Spell, s2 \in {"int", "dexp"}, nm \in Names,
+DocsB == { MkDoc(s1, s2, nm, l1, l2) : s1 \in Spell, s2 \in {"int", "dexp", "plusexp"}, nm \in Names,
                                        l1 \in {<<>>, <<C("O", "x"), C("NL", 0), C("Q", 0)>>}, l2 \in PtLabels }
 \* duplicate tier names, three tiers, empty tiers, blank-labelled entries
 NmN == <<C("O", "n")>>
